@@ -16,6 +16,17 @@ def gen_lines(rng, tier):
     for _ in range(n):
         lines.append('mpintspec %d' % rng.getrandbits(rng.choice([1, 7, 8, 15, 16, 31, 32, 33, 64, 255, 256, 1024, 4096])))
         lines.append(sshgen.kexinit(rng))
+    # identification strings (RFC 4253 4.2): short ones and every total length around the 255-character limit
+    alpha = 'abcdefghijklmnopqrstuvwxyzABCDEFGHIJKLMNOPQRSTUVWXYZ0123456789_.'
+    for total in list(range(250, 259)) * (2 if tier == 'quick' else 20) + [rng.randint(12, 249) for _ in range(n // 2)]:
+        proto = rng.choice(['2.0', '1.99', '1.5'])
+        comment = None if rng.random() < 0.5 else ' '.join(''.join(rng.choice(alpha) for _ in range(rng.randint(1, 8))) for _ in range(rng.randint(1, 3)))
+        fixed = 4 + len(proto) + 1 + 2 + (0 if comment is None else 1 + len(comment))
+        if total - fixed < 4:
+            comment, fixed = None, 4 + len(proto) + 1 + 2
+        sw = 'srv' + ''.join(rng.choice(alpha) for _ in range(total - fixed - 3))
+        c = '_' if comment is None else comment.encode().hex()
+        lines.append('bannerenc %s %s %s' % (proto.encode().hex(), sw.encode().hex(), c))
     for _ in range(n // 8):
         bits = rng.choice([1024, 1025, 2047, 2048])
         lines.append('rsablob %d %d' % (rng.choice([3, 17, 65537, 2 ** 31 + 11]), rng.getrandbits(bits) | 1 | (1 << (bits - 1))))
@@ -35,9 +46,30 @@ def run(chk):
         model_out = common.run_model(lines)
         nv = 0
         for l, m, i in zip(lines, model_out, impl_out):
+            if l.startswith('bannerenc'):
+                continue   # compose() does not enforce the limit; the parse direction below decides
             if m != i and nv < 5:
                 nv += 1
                 chk.violation('implementation gives %s where the RFC encoding / rule gives %s: "%s"' % (i[:100], m[:100], l[:140]), {'cmd': l, 'impl': i, 'spec': m}, None, True)
+        # identification strings composed by the implementation: within the limit they are the RFC string and parse back to
+        # it (alone and followed by other bytes); beyond the limit both sides refuse them
+        ban = []
+        for l, m, i in zip(lines, model_out, impl_out):
+            if l.startswith('bannerenc') and i.startswith('OK '):
+                if m.startswith('OK ') and m != i and nv < 8:
+                    nv += 1
+                    chk.violation('identification string composed as %s, RFC 4253 4.2 gives %s' % (i[:120], m[:120]), {'cmd': l, 'impl': i, 'spec': m}, None, True)
+                ban += ['bannerdec ' + i[3:], 'bannerdec ' + i[3:] + '0000000c0a14']
+        mb = common.run_model(ban)
+        for l, m in zip(ban, mb):
+            i = impl.impl_line(l)
+            mm = 'REFUSED' if m == 'NONE' else m
+            ii = 'REFUSED' if (i.startswith('ERR') or i.startswith('LEAK')) else i
+            if mm != ii and nv < 10:
+                nv += 1
+                chk.violation('identification string of %d bytes: implementation %s, RFC 4253 4.2 %s' % (len(bytes.fromhex(l.split(' ')[1])), i[:100], m[:100]),
+                              {'cmd': l, 'impl': i, 'spec': m}, None, True)
+        chk.coverage['identification_strings'] = len(ban)
         for l, m in zip(lines, model_out):
             if l.startswith('kexenc') and m.startswith('OK '):
                 dec_lines.append('kexdec ' + m[3:])
